@@ -472,6 +472,58 @@ def _concrete_algebra(d, graded, parity_of):
     return alg, names, canon2bin, ifg
 
 
+def vc_grade_layouts(H):
+    """a.grade(..) on concrete storage layouts of a 3-generator algebra (dense in canonical, binary, reversed order; sparse
+    permuted) with *opaque coefficient values*: the (blade -> coefficient) view of the result is exactly the stored
+    coefficients of the requested grades.  Bounded in shapes (labelled so), unbounded in values; complements vc_grade, which is
+    generic in the layout but only follows bodies of its own shape."""
+    fuc = H.fn(MV, 'MultiVector.grade')
+    d = 3
+    layouts = {'dense-canonical': None, 'dense-binary': list(range(8)), 'dense-reversed': 'rev', 'sparse-permuted': [6, 1, 7, 2], 'single': [5]}
+    for lname, keys0 in layouts.items():
+        for grades, form in (((1,), 'ints'), ((2, 0), 'ints'), ((1, 3), 'tuple'), ((0, 1, 2, 3), 'tuple'), ((2,), 'tuple')):
+            def body(ctx, lname=lname, keys0=keys0, grades=grades, form=form):
+                alg, names, canon2bin, ifg = _concrete_algebra(d, False, lambda n: 0)
+                canon = list(canon2bin.values())
+                keys = canon if keys0 is None else (canon[::-1] if keys0 == 'rev' else list(keys0))
+                vals = [sym(f'v{k}') for k in keys]
+                stored = dict(zip(keys, vals))
+                # indices_for_grades answers any tuple of grades in the order given (DefaultKeyDict in the real class)
+                by_grade = {g: [k for k in canon if bin(k).count('1') == g] for g in range(d + 1)}
+                ifg_model = sym('indices_for_grades', on_getitem=lambda interp, me, idx: tuple(k for g in idx for k in by_grade.get(g, [])))
+                alg.attrs['indices_for_grades'] = ifg_model
+                alg.kvc_len = lambda: 2 ** d
+                made = []
+                fk = sym('fromkeysvalues', callable_result=lambda i, m, a, k: made.append((a, k)) or ('MV', a, k))
+                attrs = {'algebra': alg, 'fromkeysvalues': fk, '_keys': tuple(keys), '_values': list(vals),
+                         'keys': sym('keys', callable_result=lambda i, m, a, k: tuple(keys)),
+                         'values': sym('values', callable_result=lambda i, m, a, k: list(vals)),
+                         'items': sym('items', callable_result=lambda i, m, a, k: list(zip(keys, vals)))}
+                for K, n in names.items():
+                    attrs[n] = stored.get(K, 0)
+                me = sym('self', attrs=attrs)
+                me.kvc_len = lambda: len(keys)
+                r = H.closure(Interp(ctx, source_name=MV), fuc)(me, *grades) if form == 'ints' else H.closure(Interp(ctx, source_name=MV), fuc)(me, grades)
+                if len(made) != 1:
+                    raise OutOfSubset('grade() did not build its result with one fromkeysvalues call')
+                a, k = made[0]
+                a = list(a) + [k.get(x) for x in ('keys', 'values') if x in k]
+                try:
+                    rk, rv = list(a[1]), list(a[2])
+                except Exception:
+                    raise OutOfSubset('grade(): keys / values of the result are not concrete sequences')
+                got = {}
+                for kk, vv in zip(rk, rv):
+                    if not (isinstance(vv, int) and vv == 0):
+                        got[kk] = vv
+                want = {kk: vv for kk, vv in stored.items() if bin(kk).count('1') in grades}
+                ok = len(rk) == len(rv) and len(set(rk)) == len(rk) and set(got) == set(want) and all(got[kk] is want[kk] for kk in want)
+                ctx.oblige(f'grade{grades} on a {lname} multivector: exactly the stored coefficients of the requested grades, each on its own blade',
+                           bool(ok), meta={'got': repr(dict(zip(rk, rv)))[:300], 'expected': repr(want)[:300]})
+                return r
+            H.run_paths(fuc, f'layout={lname},grades={grades},{form}', body)
+
+
 def vc_new(H, only=None, order=False):
     """The real body of MultiVector.__new__ is interpreted with *opaque coefficient values* and *symbolic spelling parities*
     over concrete small default-basis algebras (d = 2, 3) and the construction forms below (bounded in shapes, unbounded in
